@@ -275,7 +275,8 @@ async fn echo_scenario(a: &ShardArgs, idx: u64) {
             };
             sim.send_from(
                 OUT,
-                &ra::B::response(ra::FIR | ra::FIN | seq, false, 0, iin2_0)
+                // (one reply in three asks to be confirmed: that changes nothing about what it says)
+                &ra::B::response(ra::FIR | ra::FIN | if r.chance(1, 3) { out::count("echo_replies_asking_for_confirmation", 1); ra::CON } else { 0 } | seq, false, 0, iin2_0)
                     .raw(&body0)
                     .done(),
             );
@@ -357,7 +358,7 @@ async fn echo_scenario(a: &ShardArgs, idx: u64) {
                         };
                         sim.send_from(
                             OUT,
-                            &ra::B::response(ra::FIR | ra::FIN | seq, false, 0, iin2_1)
+                            &ra::B::response(ra::FIR | ra::FIN | if r.chance(1, 3) { ra::CON } else { 0 } | seq, false, 0, iin2_1)
                                 .raw(&body1)
                                 .done(),
                         );
@@ -1001,6 +1002,51 @@ async fn queue_scenario(a: &ShardArgs, idx: u64) {
         ),
     }
     out::distinct(&format!("Q/maxq{maxq}"));
+    // ---- one request outstanding and several queued behind it when the session ends: every one of them gets its outcome
+    let mut ac = AssocCfg::quiet(OUT);
+    ac.response_timeout_ms = 100;
+    ac.max_queued = r.range(2, 5) as usize;
+    let maxq = ac.max_queued;
+    let mut sim = MasterSim::start(MasterCfg::default(), &[ac]).await;
+    let _ = sim.collect();
+    let nreq = r.range(2, maxq as u64 + 1) as usize;
+    let mut ids = vec![];
+    for k in 0..nreq {
+        let rq = match r.below(4) {
+            0 => UserReq::ReadClasses([true, false, false, false]),
+            1 => UserReq::Command(false, vec![(0, k as u16, false, 1)]),
+            2 => UserReq::ColdRestart,
+            _ => UserReq::TimeSync(2),
+        };
+        ids.push(sim.submit(0, rq));
+        settle().await;
+    }
+    let how = match r.below(3) {
+        0 => {
+            let _ = sim.channel.disable().await;
+            "disable"
+        }
+        1 => {
+            sim.disconnect().await;
+            "disconnect"
+        }
+        _ => {
+            sim.reconnect().await;
+            "reconnect"
+        }
+    };
+    settle().await;
+    let hist = vec![format!("max_queued {maxq}, {nreq} requests submitted, then {how}")];
+    out::eval(1);
+    sim.advance(100 * (nreq as u64 + 2) + 10).await;
+    let unresolved = ids.iter().filter(|i| sim.result_of(**i).is_none()).count();
+    if unresolved > 0 {
+        viol(a, idx, "no_outcome", &format!("queued-at-{how}"), format!("{unresolved} of {nreq} requests (one outstanding, the others queued) have no outcome {} ms after the {how}", 100 * (nreq as u64 + 2) + 10), &hist);
+    } else {
+        out::count("queued_resolved_after_session_end_ok", 1);
+        out::count(&format!("queued_resolved_after_{how}_ok"), 1);
+    }
+    out::distinct(&format!("Q2/n{nreq}/{how}"));
 }
 
 pub fn run(a: &ShardArgs) -> Result<(), String> {
